@@ -92,6 +92,44 @@ func main() {
 		p.Expect = nil
 		out := checks.SafeExec(c, &p)
 		_ = json.NewEncoder(os.Stdout).Encode(map[string]interface{}{"out": out})
+	case "dump":
+		// dump <plan.json>: run the steps without oracles, print the disk after every step
+		b, err := os.ReadFile(os.Args[2])
+		if err != nil {
+			fmt.Fprintln(os.Stderr, err)
+			os.Exit(2)
+		}
+		var p drv.Plan
+		if err := json.Unmarshal(b, &p); err != nil {
+			fmt.Fprintln(os.Stderr, err)
+			os.Exit(2)
+		}
+		h := drv.Hooks{After: func(w *drv.World, s drv.Step) *drv.Violation {
+			fmt.Printf("--- after %s (retained %v cur %d)\n", s.String(), w.M.Versions(), w.M.Cur)
+			if w.Sim != nil {
+				if os.Getenv("VERIF_DUMP_LOG") != "" {
+					for _, rec := range w.Sim.Log(0, w.Sim.LogLen()) {
+						if rec.Step != s.ID {
+							continue
+						}
+						fmt.Printf("  write #%d:\n", rec.Seq)
+						for _, op := range rec.Ops {
+							if op.Del {
+								fmt.Printf("    del %x\n", op.K)
+							} else {
+								fmt.Printf("    set %x = %x\n", op.K, op.V)
+							}
+						}
+					}
+				}
+				fmt.Print(w.Sim.String())
+			}
+			return nil
+		}}
+		res := drv.RunPlan(&p, p.Config, h)
+		if res.Vio != nil {
+			fmt.Println("VIOLATION:", res.Vio.Error())
+		}
 	case "replay":
 		if len(os.Args) < 3 {
 			usage()
